@@ -91,6 +91,22 @@ class C01(Check):
         t.feed(out).finish()
         cr.rect_claims(eng, t, g, rw, rh, newlines=rh - 1)
         eng.claim("does not end with a newline", not cr.ends_with_newline(out))
+        if style == "kitty":
+            # a terminal draws nothing for a command whose data it cannot decode as labelled: the cells of that
+            # command's footprint would stay uncovered
+            from sx.tstr import Opq
+
+            for i, tr in enumerate(t.transmissions):
+                if eng.concrete is not None:
+                    pieces = eng.registry.reify_b64_chunks([cr.literal_text(pl) for _, _, pl in tr["chunks"]])
+                else:
+                    pieces = [a for _, _, pl in tr["chunks"] for a in pl]
+                ok = bool(pieces) and all(isinstance(a, Opq) and isinstance(a.meta, dict) and a.meta.get("kind") == "b64" for a in pieces)
+                inner = next((a for a in pieces[0].meta["src"] if isinstance(a, Opq)), None) if ok else None
+                eng.claim(f"kitty[{i}]: the image data is base64 text of one object", inner is not None)
+                if inner is not None:
+                    eng.claim(f"kitty[{i}]: the terminal can decode the data as labelled (o=z exactly on compressed data), so the command's cells get covered",
+                              (inner.meta.get("kind") == "zlib") == ("o" in tr["keys"]))
         n_images = len([p for p in t.placements])
         eng.observe("newlines", t.newlines)
         eng.observe("placements", n_images)
